@@ -30,13 +30,21 @@ FRESH_FUNCS = {
     "copy.deepcopy", "deepcopy", "np.array", "np.copy", "np.zeros", "np.ones", "np.empty", "np.identity",
     "np.eye", "np.zeros_like", "np.ones_like", "np.empty_like", "np.arange", "np.linspace", "np.concatenate",
     "np.block", "np.stack", "np.vstack", "np.hstack", "np.kron", "np.outer", "np.dot", "np.matmul", "np.einsum",
-    "np.sqrt", "np.exp", "np.cos", "np.sin", "np.cosh", "np.sinh", "np.tanh", "np.abs", "np.real", "np.imag",
+    "np.sqrt", "np.exp", "np.cos", "np.sin", "np.cosh", "np.sinh", "np.tanh", "np.abs",
     "np.conj", "np.conjugate", "np.sum", "np.prod", "np.trace", "np.diag", "np.delete", "np.where", "np.isclose",
     "np.allclose", "np.all", "np.any", "np.linalg.inv", "np.linalg.det", "np.linalg.eigvals", "np.linalg.norm",
     "np.power", "np.round", "np.floor", "np.log", "np.cumsum", "np.tile", "np.repeat", "np.random.default_rng",
     "len", "int", "float", "complex", "str", "bool", "repr", "abs", "sum", "min", "max", "round", "range", "hash",
     "isinstance", "issubclass", "callable", "hasattr", "type", "id", "any", "all", "Fraction", "format",
     "scipy.linalg.block_diag", "scipy.linalg.expm", "scipy.linalg.sqrtm", "factorial", "partial",
+}
+# numpy functions whose result MAY BE (a view of) their first argument: np.asarray returns the argument itself when no
+# conversion is needed, reshape/ravel/squeeze/transpose/real/imag/... return views
+ALIASING_NP = {
+    "asarray", "asanyarray", "ascontiguousarray", "asfortranarray", "reshape", "ravel", "squeeze", "transpose", "atleast_1d",
+    "atleast_2d", "atleast_3d", "expand_dims", "moveaxis", "swapaxes", "rollaxis", "broadcast_to", "broadcast_arrays", "real", "imag",
+    "diagonal", "split", "array_split", "hsplit", "vsplit", "flip", "fliplr", "flipud", "rot90", "triu_indices_from", "nan_to_num",
+    "require", "asarray_chkfinite", "view",
 }
 FRESH_METHODS = {
     "copy", "deepcopy", "astype", "tolist", "sum", "prod", "dot", "conj", "conjugate", "trace", "mean", "all", "any",
@@ -248,6 +256,14 @@ class Analysis:
             if isinstance(e.func, ast.Attribute):
                 if e.func.attr in FRESH_METHODS:
                     return EMPTY
+                if base.startswith(("np.", "numpy.", "self.np.", "self._np.")) and e.func.attr in ALIASING_NP:
+                    out = EMPTY
+                    for a in e.args[:1]:
+                        out |= prov(a, env)
+                    for k in e.keywords:
+                        if k.arg in ("a", "x", "m", "ary", "array", "val"):
+                            out |= prov(k.value, env)
+                    return out
                 if base.startswith(("np.", "scipy.", "math.", "numpy.", "tf.", "jnp.", "jax.", "self._tf.", "self._jax.", "self.np.", "self._np.")):
                     return EMPTY
             argp = EMPTY
